@@ -215,8 +215,10 @@ class SolverWrapper:
                     last_lb = {}
                     for v, val in zip(self._pending_lb_vars, self._pending_lb_vals):
                         last_lb[v.index] = val
-                    idxs = np.array(list(last_lb.keys()), dtype=np.int32)
-                    lbs  = np.array(list(last_lb.values()), dtype=np.float64)
+                    # getCols() only accepts strictly increasing index sets
+                    sorted_idxs = sorted(last_lb.keys())
+                    idxs = np.array(sorted_idxs, dtype=np.int32)
+                    lbs  = np.array([last_lb[i] for i in sorted_idxs], dtype=np.float64)
                     # Prefer dedicated lower bound update if available, else fall back to bounds change with UB unchanged
                     if hasattr(self.solver, "changeColsLower"):
                         self.solver.changeColsLower(len(idxs), idxs, lbs)
